@@ -2,7 +2,7 @@
 
 The memory model is identical to the Rust harness bus (rust/harness/src/cpu.rs): content of canonical
 address c is overrides.get(c, mix32(seed, c) & 0xFF); canon() reduces an address to the documented
-address space (24-bit wrap, 0x100000..0x1000FF internal, else external mod 1 MiB).
+address space (see canon() for the per-core pairing with the project's own memory conventions).
 A *case* is a JSON-able dict shared with the Rust side:
     {"regs": {"BA","I","X","Y","U","S","PC","F", optional TEMPn}, "power": "running"|"halted",
      "seed": int, "mem": [[addr, byte], ...], "steps": n}
@@ -19,10 +19,19 @@ INT_BASE = 0x100000
 
 
 def canon(a: int) -> int:
+    """Canonical address of a byte access made by the *Python* core.
+
+    Each core is paired with the canonicalisation of its own project memory model (what the two memory
+    models do with out-of-range addresses is C11's subject, not the cores'): PCE500Memory documents
+    `address &= 0xFFFFFF; address >= 0x100000 -> internal[(address - 0x100000) & 0xFF]`, and the Python
+    lifter relies on it for internal-memory wrap-around (it emits INTERNAL_MEMORY_START + unwrapped offset).
+    The Rust harness bus uses MemoryImage's rule (24-bit wrap; [0x100000, 0x100100) internal; everything
+    else external modulo 1 MiB).  Both map into the same canonical space: 0..0xFFFFF external,
+    0x100000..0x1000FF internal."""
     a &= 0xFFFFFF
-    if 0x100000 <= a < 0x100100:
-        return a
-    return a & 0xFFFFF
+    if a >= 0x100000:
+        return 0x100000 + (a & 0xFF)
+    return a
 
 
 class HashMemory:
